@@ -3,6 +3,7 @@ import SPProofs.Card.Pop
 import SPProofs.Card.Closed
 
 namespace SPModel
+open Builder Card
 namespace Builder
 
 /-! ### `int_to_binary` -/
